@@ -18,6 +18,7 @@ inline unsigned long long next() { rng ^= rng << 13; rng ^= rng >> 7; rng ^= rng
 inline void maybe_yield() { if ((next() & 7) == 0) std::this_thread::yield(); }
 constexpr long NONE = -987654321L;
 // nested parse: while the hook is set, every rule functor of the outer parse runs a complete parse on the same parser object
+inline thread_local bool fresh_mode = false;     // isolated results: every call on an object without any history (a copy of a never-used parser)
 inline thread_local long (*nest_fn)(const std::string&) = nullptr;
 inline thread_local const std::string* nest_in = nullptr;
 inline thread_local int nest_depth = 0;
@@ -98,6 +99,7 @@ def emit_one(g, gi, runtime_ctor):
     tail = ', use_lexer<vt::QuietLexer<&spec>>{}' if custom else ''
     decl = 'parser p(n%d, terms(%s), nterms(%s), rules(\n  %s\n)%s);' % (g.root, ', '.join(tref), ', '.join('n%d' % i for i in range(len(g.nts))), ',\n  '.join(rules), tail)
     o.append('inline auto make() { ' + decl + ' return p; }')     # a fresh parser object built at run time by the calling thread
+    o.append('inline const auto& pristine() { static const auto* q = new auto(make()); return *q; }')     # never used for any call: copies of it are objects without history
     if runtime_ctor: o.append('inline const auto& get() { static const auto* q = new ' + decl.replace('parser p(', 'parser(', 1).rstrip(';') + '; return *q; }')
     else:
         o.append('constexpr ' + decl); o.append('inline const auto& get() { return p; }')
@@ -126,8 +128,11 @@ int main(int argc, char** argv)
     int nthreads = std::atoi(argv[2]); long iters = std::atol(argv[3]); unsigned long long seed = std::strtoull(argv[4], nullptr, 10);
     std::vector<Case> cases;
     { std::ifstream in(argv[1]); std::string line; while (std::getline(in, line)) { std::istringstream ls(line); Case c; std::string hx; ls >> c.gi >> c.op >> hx; if (hx == "-") hx.clear(); c.in = vf::unhex(hx); cases.push_back(c); } }
-    // isolated results, computed single-threaded, each from a fresh call
+    // isolated results, computed single-threaded, each call on its own copy of a never-used parser object
+    std::vector<std::string> before; for (int g = 0; g < %(ng)d; ++g) before.push_back(image(g));      // before any call on the shared objects
+    vt::fresh_mode = true;
     for (auto& c : cases) { std::printf("I %d %d\n", c.gi, c.op); std::fflush(stdout); c.want = run_case(c); }
+    vt::fresh_mode = false;
     std::printf("ISOLATED-DONE\n"); std::fflush(stdout);
     for (auto& c : cases) std::printf("W %d %d %ld %llu %ld\n", c.gi, c.op, c.want.v, c.want.sh, c.want.extra);
     // history independence: the same calls in a shuffled order (after failing and recovering calls) reproduce the isolated results
@@ -135,7 +140,6 @@ int main(int argc, char** argv)
     { std::vector<size_t> order(cases.size()); for (size_t i = 0; i < order.size(); ++i) order[i] = i; vt::rng = seed | 1;
       for (int rep = 0; rep < 3; ++rep) { for (size_t i = order.size(); i > 1; --i) std::swap(order[i - 1], order[vt::next() % i]);
         for (size_t i : order) { vt::Res r = run_case(cases[i]); if (!(r == cases[i].want)) { if (!hist_bad) std::printf("HB %zu %ld %llu %ld\n", i, r.v, r.sh, r.extra); ++hist_bad; } } } }
-    std::vector<std::string> before; for (int g = 0; g < %(ng)d; ++g) before.push_back(image(g));
     std::atomic<long> mismatches{ 0 }; std::atomic<int> ready{ 0 }; std::atomic<bool> go{ false };
     std::mutex mu; std::vector<std::string> firstbad;
     struct Iv { long long s, e; int op; int th; };
@@ -173,13 +177,14 @@ int main(int argc, char** argv)
 def emit_tu(gs, runtime):
     o = [PRE]
     for gi, g in enumerate(gs): o.append(emit_one(g, gi, gi in runtime))
-    nest = ('if (c.op == 5) { vt::Res iso = vt::do_op<g%d::is_ctx>(g%d::get(), 0, c.in); vt::nest_in = &c.in; vt::nest_want = iso.v; vt::nest_calls = 0; vt::nest_bad = 0; '
+    nest = ('if (vt::fresh_mode && c.op <= 3) { auto q = g%d::pristine(); return vt::do_op<g%d::is_ctx>(q, c.op, c.in); } '
+            'if (c.op == 5) { auto q0 = g%d::pristine(); vt::Res iso = vt::do_op<g%d::is_ctx>(q0, 0, c.in); vt::nest_in = &c.in; vt::nest_want = iso.v; vt::nest_calls = 0; vt::nest_bad = 0; '
             'vt::nest_fn = [](const std::string& s) { return vt::do_op<g%d::is_ctx>(g%d::get(), 0, s).v; }; vt::Res r = vt::do_op<g%d::is_ctx>(g%d::get(), 0, c.in); vt::nest_fn = nullptr; '
             'if (!(r == iso)) r.extra = -777777; else if (vt::nest_bad) r.extra = -777778; else r.extra = vt::nest_calls; return r; } ')
     def case(gi):
         old = ('if (c.op == 4) { auto q = g%d::make(); vt::Res r = vt::do_op<g%d::is_ctx>(q, 3, c.in); vt::Res r2 = vt::do_op<g%d::is_ctx>(q, 0, c.in); r.extra = r2.v; return r; } '
                'return vt::do_op<g%d::is_ctx>(g%d::get(), c.op, c.in);') % ((gi,) * 5)
-        return '    case %d: ' % gi + nest % ((gi,) * 6) + old
+        return '    case %d: ' % gi + nest % ((gi,) * 8) + old
     disp = '\n'.join(case(gi) for gi in range(len(gs)))
     imgs = '\n'.join('    case %d: return ctpg::verif::access::image(g%d::get());' % (gi, gi) for gi in range(len(gs)))
     o.append(MAIN.replace('%(dispatch)s', disp).replace('%(images)s', imgs).replace('%(ng)d', str(len(gs))))
@@ -275,7 +280,7 @@ def _worker(spec):
             bad = [l for l in text.split('\n') if l.startswith('BAD ') or l.startswith('HB ') or l.startswith('IMG ')]
             if mism: out['viol'].append((['site:threads@result'], '%d threads: %d of %d concurrent calls returned something else than in isolation: %s' % (nthreads, mism, calls, bad[:2]), {'grammars': [g.to_json() for g in gs], 'bad': bad}))
             if hist: out['viol'].append((['site:history@result'], 'single-threaded shuffled history: %d calls differ from their isolated results: %s' % (hist, bad[:2]), {'grammars': [g.to_json() for g in gs], 'bad': bad}))
-            if img: out['viol'].append((['site:parser-object@modified'], '%d parser objects changed their byte image during concurrent calls: %s' % (img, bad[:3]), {'grammars': [g.to_json() for g in gs]}))
+            if img: out['viol'].append((['site:parser-object@modified'], '%d parser objects changed their byte image between the first and the last call (single-threaded history + concurrent calls): %s' % (img, bad[:3]), {'grammars': [g.to_json() for g in gs]}))
             if reports:
                 sigs = collections.Counter(re.sub(r'0x[0-9a-f]+|\bT\d+\b|pid=\d+', '', r.split('\n')[0]) for r in reports)
                 out['viol'].append((['site:threads@race'], '%d threads: ThreadSanitizer reported %d block(s): %s ... %s' % (nthreads, len(reports), dict(sigs), reports[0][:600]), {'reports': reports[:5]}))
